@@ -1,6 +1,7 @@
 package main
 
 import (
+	"os"
 	"fmt"
 	"go/types"
 	"strings"
@@ -333,7 +334,10 @@ func runC01(r *Run, p *Prog) {
 			for _, d := range decodeSites(f) {
 				// only the decode of the request frame: data rooted in a []byte parameter or a ReadBytes result
 				dt := strip(T.T(d.Data))
-				if !(strings.HasPrefix(dt, "param:") || strings.Contains(dt, "ReadBytes")) {
+				if os.Getenv("VLDEBUG") == "r5" {
+					fmt.Fprintf(os.Stderr, "R5 decode site in %s: data %s\n", f.Name(), dt)
+				}
+				if !(strings.HasPrefix(dt, "param:") || strings.HasPrefix(dt, "*(param:") && !strings.Contains(dt, ".") || strings.Contains(dt, "ReadBytes")) {
 					continue
 				}
 				n++
